@@ -11,6 +11,9 @@ HARNESSES = [
     dict(name="c14afz", kind="fuzz", srcs=["harness/c14/c14a_seq.cpp"], defs=["-DVERIF_LIBFUZZER"]),
     dict(name="c17a", kind="asan", srcs=["harness/c17/c17a_serialize.cpp"]),
     dict(name="c17afz", kind="fuzz", srcs=["harness/c17/c17a_serialize.cpp"], defs=["-DVERIF_LIBFUZZER"]),
+    dict(name="c09", kind="asan", srcs=["harness/c09/c09_alloc.cpp"]),
+    dict(name="c12a", kind="asan", srcs=["harness/c12/c12a_filegraph.cpp"]),
+    dict(name="c12afz", kind="fuzz", srcs=["harness/c12/c12a_filegraph.cpp"], defs=["-DVERIF_LIBFUZZER"]),
     dict(name="c14b", kind="asan", srcs=["harness/c14/c14b_assoc.cpp"]),
     dict(name="c14bfz", kind="fuzz", srcs=["harness/c14/c14b_assoc.cpp"], defs=["-DVERIF_LIBFUZZER"]),
     dict(name="c05", kind="sched", srcs=["harness/c05/c05_barrier.cpp"]),
@@ -169,6 +172,22 @@ PROPS = {
         level_note="trusted: as C01; operator end is used as a sound under-approximation of the runtime's commit",
         assumptions=["programs create only work of strictly later level than their own", "as C01"],
     ),
+    "C09": dict(
+        variants={"fuzz": ["galois_shmem"]},
+        units=[dict(type="rc", harness="c09", quick=24000, thorough=1000000, enumerate=True)],
+        engine="rapidcheck + fork per case (ASan+UBSan)",
+        technique="model-based property testing: rapidcheck-generated allocation histories (alloc/free/clear, sizes at every class boundary, operations assigned to threads, cross-thread frees, storage create/destroy/move) executed in a fresh forked child per case against every Galois allocator; shadow interval map + per-block canaries re-verified after every step; real-thread rounds for the concurrent part",
+        rule=("cases = (allocator family, topology 4|2,2|1,1,1,1|3,1, threads 1..4, operation list in the tail); non-trivial = a free/clear "
+              "followed by a later allocation of the same size class, or a cross-thread free, or a size on a class boundary (<=1, 2^k, "
+              "2^k+-1, within a few bytes of the 2 MB page); distinct = hash of the case"),
+        level_text=("Oracle: every block non-null (size>0), aligned (8 B heaps, 128 B storage offsets with offset+size<=2 MB, 2 MB page pool "
+                    "pages after a raw-mmap probe), mapped, disjoint from all live blocks, canaries intact after every step, not crossing "
+                    "its pool page, reused only after free, bump blocks live until clear, per-iteration blocks intact until the iteration "
+                    "ends, two-argument allocate returns 0 < allocated <= size. Exploration only."),
+        level_note="trusted: the shadow map/canary oracle; process-global allocators get a fresh process per case; the concurrent part uses real threads (schedules sampled) with a schedule-independent oracle",
+        assumptions=["one-argument bump allocations above a page abort by documented design and are not generated",
+                     "'per-thread storage out of memory' (documented fragmentation limit) ends a case without verdict"],
+    ),
     "C10": dict(
         variants={"sched": ["galois_shmem"]},
         units=[dict(type="rc", harness="c10", quick=16000, thorough=250000)],
@@ -185,8 +204,10 @@ PROPS = {
                      "removed nodes are never re-added; parallel edges of one pair carry equal data; where the implementation may legally pick either of several parallel edges the case is marked ambiguous and only structure is compared"],
     ),
     "C12": dict(
-        variants={"native": ["galois_shmem", "graph-convert"]},
-        units=[dict(type="hyp", harness="py:c12b", quick=4000, thorough=60000)],
+        variants={"native": ["galois_shmem", "graph-convert"], "fuzz": ["galois_shmem"]},
+        units=[dict(type="rc", harness="c12a", quick=24000, thorough=1000000, workers=8),
+               dict(type="fuzz", harness="c12afz", quick=16000, thorough=2000000, workers=8, max_len=400),
+               dict(type="hyp", harness="py:c12b", quick=2400, thorough=60000)],
         engine="hypothesis over subprocesses",
         technique="property-based testing: Hypothesis-generated text inputs (unambiguous grammar: blanks, CR/LF, comments, blank lines, missing weights, extra columns, id gaps, large ids, duplicates, self edges, no trailing newline) and binary .gr inputs written by an independent codec; graph-convert run as a subprocess; round-trip / reference-meaning oracle per conversion",
         rule=("cases = (conversion mode, edge type, up to 30 lines, CR/LF, trailing newline, inverse conversion, transforming "
